@@ -10,4 +10,4 @@ Extraction Language OCaml.
 Extraction "../ocaml/c09/model.ml"
   Z.add Z.mul Z.sub Z.div_eucl Z.compare Z.of_nat Z.to_nat
   run step rec_read fmt_cols fmt_names find_sf view_chain wrun wstep obj_read obj_fmt
-  sf_route rec_route route_vals resolve canon.
+  sf_route rec_route route_vals resolve canon wattr wstep7 wrun7.
